@@ -438,7 +438,7 @@ class GenA:
         saved_loop = self.loop_depth
         self.loop_depth = 0
         body = []
-        for _ in range(rng.randint(1, 5)):
+        for _ in range(rng.randint(1, 4)):
             body += self.stmt(1)
         if ret is not None:
             self.f("role:return-value/%s" % ret)
@@ -477,14 +477,608 @@ class GenA:
             glob.append(decl(T, n, ("(%s)" % self.lit(T, 3)) if not self.lit_is_atomic(T) else self.lit(T, 3)))
             self.globals_ro[n] = T
         fns = []
-        for _ in range(rng.randint(2, 5)):
+        for _ in range(rng.randint(1, 3)):
             fns += self.function()
         self.scopes = [{}]
         self.in_func = None
         main = []
-        for _ in range(rng.randint(3, 8)):
+        for _ in range(rng.randint(2, 5)):
             main += self.stmt(0)
         return HEAD + "\n".join(glob) + "\n\n" + "\n".join(fns) + "\n" + "\n".join(main) + "\n"
+
+
+# =================================================================================================
+# Stream M: Text-subset skeleton programs shared with the Coq model (coq/Lower/Own.v)
+# =================================================================================================
+# Every control-flow decision of the program is a call of `nimm`, which reads the next character of
+# the tape given as first command-line argument; the model consumes the same tape as its oracle.
+# Counting loops have static iteration counts.  All texts are non-empty ASCII, all lists have two
+# elements, so every size in the skeleton is known without interpreting the program.
+MHEAD = '''Binde "Duden/Ausgabe" ein.
+Binde "Duden/Laufzeit" ein.
+
+Die Text Liste args ist die Befehlszeilenargumente.
+Der Text band ist (args an der Stelle 2).
+Die Zahl bandpos ist 0.
+
+Die Funktion nimm gibt einen Wahrheitswert zurück, macht:
+	Erhöhe bandpos um 1.
+	Wenn bandpos größer als (die Länge von band) ist, gib falsch zurück.
+	Gib ((band an der Stelle bandpos) gleich '1' ist) zurück.
+Und kann so benutzt werden:
+	"nimm"
+
+'''
+MARK1, MARK2 = 1000, 1001
+
+
+class MFn:
+    def __init__(self, fid, params, ret):
+        self.fid, self.params, self.ret = fid, params, ret      # params [(vid, 'v'|'r', 'T'|'L')]
+        self.const = {}       # vid -> bool (const_func_param.go re-implemented on the skeleton)
+        self.body_sx = None
+        self.text = None
+
+    def alias(self):
+        return "f%d" % self.fid + "".join(" <v%d>" % p[0] for p in self.params)
+
+    def sx(self, opt):
+        ps = []
+        for (vid, m, ty) in self.params:
+            mm = m
+            if m == "v" and opt >= 2 and self.const.get(vid, False):
+                mm = "c"
+            ps.append("(%d %s 1)" % (vid, mm))
+        return "(fun %d (%s) %s)" % (1 if self.ret else 0, " ".join(ps), self.body_sx)
+
+
+class GenM:
+    def __init__(self, rng, feat, risky=None):
+        self.rng, self.feat, self.risky = rng, feat, risky
+        self.nv = 0
+        self.fns = []
+        self.scopes = []
+        self.cur = None            # MFn being generated
+        self.loop = 0
+        self.planted = False
+        self.budget = 0
+
+    def f(self, k):
+        self.feat[k] = self.feat.get(k, 0) + 1
+
+    def newvar(self):
+        self.nv += 1
+        return self.nv
+
+    def vars_of(self, ty):
+        return [v for sc in self.scopes for (v, t) in sc if t == ty]
+
+    def word(self):
+        n = self.rng.randint(1, 8)
+        return "".join(self.rng.choice("abcdefghijklmnopqrstuvwxyz") for _ in range(n))
+
+    def mark_nonconst(self, ddp):
+        """an argument written as a bare parameter name passed to a non-const parameter"""
+        m = re.fullmatch(r"v(\d+)", ddp)
+        if m and self.cur is not None and int(m.group(1)) in self.cur.const:
+            self.cur.const[int(m.group(1))] = False
+
+    # ---- expressions: (sx, ddp, is_temp)
+    def text(self, d=0):
+        rng = self.rng
+        ch = ["lit", "lit"]
+        if self.vars_of("T"):
+            ch += ["var", "var", "var"]
+        if self.vars_of("L"):
+            ch += ["part"]
+        if d < 3 and self.budget > 0:
+            self.budget -= 1
+            ch += ["concat", "concat", "derive", "falls"]
+            if [fn for fn in self.fns if fn.ret == "T"]:
+                ch += ["call", "call"]
+        k = rng.choice(ch)
+        if k == "lit":
+            w = self.word()
+            return "(L %d)" % (len(w) + 1), '"%s"' % w, True
+        if k == "var":
+            v = rng.choice(self.vars_of("T"))
+            return "(V %d)" % v, "v%d" % v, False
+        if k == "part":
+            v = rng.choice(self.vars_of("L"))
+            i = rng.randint(1, 2)
+            self.f("M:element-read")
+            return "(Q %d %d)" % (v, i), "(v%d an der Stelle %d)" % (v, i), False
+        if k == "concat":
+            a, b = self.text(d + 1), self.text(d + 1)
+            self.f("M:concat")
+            return "(C %s %s)" % (a[0], b[0]), "(%s verkettet mit %s)" % (a[1], b[1]), True
+        if k == "derive":
+            a = self.text(d + 1)
+            self.f("M:slice")
+            return "(D %s 2)" % a[0], "(%s bis zum 1. Element)" % a[1], True
+        if k == "falls":
+            a, b = self.text(d + 1), self.text(d + 1)
+            if not a[2] and not b[2]:
+                w = self.word()
+                b = ("(L %d)" % (len(w) + 1), '"%s"' % w, True)
+            c = self.effects(d + 1)
+            self.f("M:falls")
+            return "(I %s %s %s)" % (c[0], a[0], b[0]), "(%s, falls %s, ansonsten %s)" % (a[1], self.as_cond(c), b[1]), True
+        if k == "call":
+            return self.call(rng.choice([fn for fn in self.fns if fn.ret == "T"]), d)
+        raise ValueError(k)
+
+    def lst(self, d=0):
+        rng = self.rng
+        ch = ["build"]
+        if self.vars_of("L"):
+            ch += ["var", "var"]
+        if d < 3 and self.budget > 0:
+            self.budget -= 1
+            ch += ["falls"]
+            if [fn for fn in self.fns if fn.ret == "L"]:
+                ch += ["call", "call"]
+        k = rng.choice(ch)
+        if k == "build":
+            a, b = self.text(d + 1), self.text(d + 1)
+            self.f("M:list-literal")
+            return "(B 32 %s %s)" % (a[0], b[0]), "(eine Liste, die aus %s, %s besteht)" % (a[1], b[1]), True
+        if k == "var":
+            v = rng.choice(self.vars_of("L"))
+            return "(V %d)" % v, "v%d" % v, False
+        if k == "falls":
+            a, b = self.lst(d + 1), self.lst(d + 1)
+            if not a[2] and not b[2]:
+                x, y = self.text(3), self.text(3)
+                b = ("(B 32 %s %s)" % (x[0], y[0]), "(eine Liste, die aus %s, %s besteht)" % (x[1], y[1]), True)
+            c = self.effects(d + 1)
+            return "(I %s %s %s)" % (c[0], a[0], b[0]), "(%s, falls %s, ansonsten %s)" % (a[1], self.as_cond(c), b[1]), True
+        if k == "call":
+            return self.call(rng.choice([fn for fn in self.fns if fn.ret == "L"]), d)
+        raise ValueError(k)
+
+    def any_np(self, d):
+        return self.text(d) if self.rng.random() < 0.7 else self.lst(d)
+
+    def call(self, fn, d):
+        used = {}
+        # Referenz arguments first, so that no by-value argument mentions them (aliasing is C08's topic)
+        for (vid, m, ty) in fn.params:
+            if m == "r":
+                cands = [v for v in self.vars_of(ty) if v not in used.values()]
+                if not cands:
+                    # no variable to bind: give up on this call, use a literal instead
+                    w = self.word()
+                    if fn.ret == "L":
+                        return "(B 32 (L %d) (L %d))" % (len(w) + 1, len(w) + 1), '(eine Liste, die aus "%s", "%s" besteht)' % (w, w), True
+                    return "(L %d)" % (len(w) + 1), '"%s"' % w, True
+                used[vid] = self.rng.choice(cands)
+        sxa, ddpa = [], []
+        for (vid, m, ty) in fn.params:
+            if m == "r":
+                v = used[vid]
+                sxa.append("(r %d)" % v)
+                ddpa.append("v%d" % v)
+                if not fn.const.get(vid, True):
+                    self.mark_nonconst("v%d" % v)
+                self.f("M:arg-by-Referenz")
+            else:
+                for _ in range(8):
+                    e = self.text(d + 1) if ty == "T" else self.lst(d + 1)
+                    if not any(re.search(r"\bv%d\b" % u, e[1]) for u in used.values()):
+                        break
+                else:
+                    w = self.word()
+                    e = ("(L %d)" % (len(w) + 1), '"%s"' % w, True) if ty == "T" else ("(B 32 (L 2) (L 2))", '(eine Liste, die aus "a", "b" besteht)', True)
+                sxa.append("(v %s)" % e[0])
+                ddpa.append(e[1])
+                if not fn.const.get(vid, True):
+                    self.mark_nonconst(e[1])
+                self.f("M:arg-by-value")
+        al = fn.alias()
+        for (vid, m, ty), a in zip(fn.params, ddpa):
+            al = al.replace("<v%d>" % vid, a)
+        return "(F %d %s)" % (fn.fid, " ".join(sxa)), "(%s)" % al, True
+
+    # ---- primitive-valued expressions with effects: (sx, always-true DDP text or None)
+    def effects(self, d=0):
+        rng = self.rng
+        r = rng.random()
+        if d >= 3 or r < 0.45 or self.budget <= 0:
+            return "P", None
+        self.budget -= 1
+        if r < 0.65:
+            a = self.any_np(d + 1)
+            self.f("M:unused-temporary")
+            return "(U1 %s)" % a[0], "((die Länge von %s) größer als -1 ist)" % a[1]
+        if r < 0.78:
+            a, b = self.any_np(d + 1), self.any_np(d + 1)
+            return "(U2 %s %s)" % (a[0], b[0]), "(((die Länge von %s) plus (die Länge von %s)) größer als -1 ist)" % (a[1], b[1])
+        a, b = self.effects(d + 1), self.effects(d + 1)
+        ta, tb = a[1] or "wahr", b[1] or "wahr"
+        if r < 0.9:
+            self.f("M:und")
+            return "(A %s %s)" % (a[0], b[0]), "(((%s und nimm) und %s) oder wahr)" % (ta, tb)
+        self.f("M:oder")
+        return "(A %s %s)" % (a[0], b[0]), "((%s und (nicht nimm)) oder %s)" % (ta, tb)
+
+    @staticmethod
+    def as_cond(c):
+        return "nimm" if c[1] is None else "(%s und nimm)" % c[1]
+
+    def num(self, v, allow_effects):
+        """numeric expression of value v, possibly with effects: (sx, ddp)"""
+        if not allow_effects or self.rng.random() < 0.5:
+            return "P", str(v)
+        a = self.any_np(2)
+        return "(U1 %s)" % a[0], "(((die Länge von %s) mal 0) plus %d)" % (a[1], v)
+
+    # ---- statements: (sx, lines)
+    def block(self, d, pre=None):
+        self.scopes.append(list(pre or []))
+        out = [self.stmt(d) for _ in range(self.rng.randint(1, 3))]
+        self.scopes.pop()
+        return "(b (S %s))" % " ".join(o[0] for o in out), [l for o in out for l in o[1]]
+
+    def stmt(self, d):
+        rng = self.rng
+        self.budget = 3
+        ind = lambda ls: ["\t" + l for l in ls]
+        kinds = ["decl", "decl", "assign", "assignpart", "write", "callstmt"]
+        if d < 3:
+            kinds += ["if", "if", "while", "dowhile", "repeat", "for", "foreach", "block"]
+        if self.loop > 0:
+            kinds += ["break", "continue"]
+        if self.cur is not None and d > 0:
+            kinds += ["return", "return"]
+        k = rng.choice(kinds)
+        if k == "decl":
+            ty = "T" if rng.random() < 0.65 else "L"
+            e = self.text() if ty == "T" else self.lst()
+            v = self.newvar()
+            self.scopes[-1].append((v, ty))
+            self.f("M:decl-from-%s" % ("temp" if e[2] else "var"))
+            return "(d %d %s)" % (v, e[0]), ["%s v%d ist %s." % ("Der Text" if ty == "T" else "Die Text Liste", v, e[1])]
+        if k == "assign":
+            ty = "T" if rng.random() < 0.65 else "L"
+            vs = self.vars_of(ty)
+            if not vs:
+                return self.stmt(d)
+            v = rng.choice(vs)
+            for _ in range(10):
+                e = self.text() if ty == "T" else self.lst()
+                # not the variable itself (self-assignment is a construct probe) and no self-doubling concatenations
+                if not re.search(r"\bv%d\b" % v, e[1]):
+                    break
+            else:
+                return self.stmt(d)
+            if self.cur is not None and v in self.cur.const:
+                self.cur.const[v] = False
+            self.f("M:assign-from-%s" % ("temp" if e[2] else "var"))
+            return "(= %d %s)" % (v, e[0]), ["Speichere %s in v%d." % (e[1], v)]
+        if k == "assignpart":
+            vs = self.vars_of("L")
+            if not vs:
+                return self.stmt(d)
+            v = rng.choice(vs)
+            i = rng.randint(1, 2)
+            for _ in range(10):
+                e = self.text()
+                if not re.search(r"\bv%d\b" % v, e[1]):
+                    break
+            else:
+                return self.stmt(d)
+            if self.cur is not None and v in self.cur.const:
+                self.cur.const[v] = False
+            self.f("M:element-assign")
+            return "(p %d %d %s)" % (v, i, e[0]), ["Speichere %s in v%d an der Stelle %d." % (e[1], v, i)]
+        if k == "write":
+            e = self.text()
+            self.mark_nonconst(e[1])      # extern callee: parameters are assumed non-const
+            self.f("M:extern-call")
+            return "(e (X - (v %s)))" % e[0], ["Schreibe den Text %s." % e[1]]
+        if k == "callstmt":
+            if not self.fns:
+                return self.stmt(d)
+            fn = rng.choice(self.fns)
+            c = self.call(fn, 0)
+            if not c[0].startswith("(F "):
+                return self.stmt(d)
+            self.f("M:discarded-result" if fn.ret else "M:call-statement")
+            return "(e %s)" % c[0], [c[1][1:-1] + "."]
+        if k == "block":
+            b = self.block(d + 1)
+            return b[0], ["Wenn wahr, dann:"] + ind(b[1])
+        if k == "if":
+            c = self.effects()
+            a = self.block(d + 1)
+            if rng.random() < 0.5:
+                b = self.block(d + 1)
+                return "(i %s %s %s)" % (c[0], a[0], b[0]), ["Wenn %s, dann:" % self.as_cond(c)] + ind(a[1]) + ["Sonst:"] + ind(b[1])
+            return "(i %s %s (b K))" % (c[0], a[0]), ["Wenn %s, dann:" % self.as_cond(c)] + ind(a[1])
+        if k in ("while", "dowhile"):
+            c = self.effects() if self.risky == "loop-condition-temporaries" and not self.planted else ("P", None)
+            if c[1] is not None:
+                self.planted = True
+            self.loop += 1
+            b = self.block(d + 1)
+            self.loop -= 1
+            self.f("M:" + k)
+            if k == "while":
+                return "(w %s %s)" % (c[0], b[0]), ["Solange %s, mache:" % self.as_cond(c)] + ind(b[1])
+            return "(o %s %s)" % (b[0], c[0]), ["Mache:"] + ind(b[1]) + ["Solange %s." % self.as_cond(c)]
+        if k == "repeat":
+            n = rng.randint(0, 3)
+            c = self.num(n, True)
+            self.loop += 1
+            b = self.block(d + 1)
+            self.loop -= 1
+            self.f("M:repeat")
+            return "(r %s %d %s)" % (c[0], n, b[0]), ["Wiederhole:"] + ind(b[1]) + ["%s Mal." % c[1]]
+        if k == "for":
+            n = rng.randint(0, 3)
+            down = rng.random() < 0.3
+            hdr_fx = self.risky == "for-header-temporaries" and not self.planted
+            to_fx = self.risky == "for-bound-temporaries" and not self.planted
+            fr = self.num(n if down else 1, hdr_fx)
+            st = self.num(-1 if down else 1, hdr_fx)
+            to = self.num(1 if down else n, to_fx)
+            if (hdr_fx and (fr[0] != "P" or st[0] != "P")) or (to_fx and to[0] != "P"):
+                self.planted = True
+            i = self.newvar()
+            self.loop += 1
+            b = self.block(d + 1)
+            self.loop -= 1
+            self.f("M:for-down" if down else "M:for-up")
+            return ("(f %s %s %s %d %d %s)" % (fr[0], to[0], st[0], 1 if down else 0, n, b[0]),
+                    ["Für jede Zahl i%d von %s bis %s mit Schrittgröße %s, mache:" % (i, fr[1], to[1], st[1])] + ind(b[1]))
+        if k == "foreach":
+            x = self.newvar()
+            hdr_fx = self.risky == "foreach-header-temporaries" and not self.planted
+            if rng.random() < 0.5:
+                # Text Liste literal with two equal-sized literal elements (optionally read through an expression that leaves temporaries)
+                w1, w2 = self.word(), self.word()
+                w2 = (w2 * 8)[:len(w1)]
+                sx_e, ddp_e = "(B 32 (L %d) (L %d))" % (len(w1) + 1, len(w1) + 1), '(eine Liste, die aus "%s", "%s" besteht)' % (w1, w2)
+                if hdr_fx:
+                    # (liste, falls (<temporaries> und nimm), ansonsten liste): the condition's temporaries stay in the loop scope
+                    a = self.any_np(2)
+                    sx_e = "(I (U1 %s) %s %s)" % (a[0], sx_e, sx_e)
+                    ddp_e = "(%s, falls (((die Länge von %s) größer als -1 ist) und nimm), ansonsten %s)" % (ddp_e, a[1], ddp_e)
+                    self.planted = True
+                self.loop += 1
+                b = self.block(d + 1, pre=[(x, "T")])
+                self.loop -= 1
+                self.f("M:foreach-list")
+                return ("(E %d %d %s 2 %s)" % (x, len(w1) + 1, sx_e, b[0]), ["Für jeden Text v%d in %s, mache:" % (x, ddp_e)] + ind(b[1]))
+            w = self.word()
+            sx_e, ddp_e = "(L %d)" % (len(w) + 1), '"%s"' % w
+            if hdr_fx:
+                a = self.any_np(2)
+                sx_e = "(I (U1 %s) %s %s)" % (a[0], sx_e, sx_e)
+                ddp_e = "(%s, falls (((die Länge von %s) größer als -1 ist) und nimm), ansonsten %s)" % (ddp_e, a[1], ddp_e)
+                self.planted = True
+            self.loop += 1
+            b = self.block(d + 1)
+            self.loop -= 1
+            self.f("M:foreach-text")
+            return ("(E %d - %s %d %s)" % (x, sx_e, len(w), b[0]), ["Für jeden Buchstaben c%d in %s, mache:" % (x, ddp_e)] + ind(b[1]))
+        if k == "break":
+            self.f("M:break")
+            return "(i P (b B) (b K))", ["Wenn nimm, verlasse die Schleife."]
+        if k == "continue":
+            self.f("M:continue")
+            return "(i P (b N) (b K))", ["Wenn nimm, fahre mit der Schleife fort."]
+        if k == "return":
+            self.f("M:return-nested")
+            if self.cur.ret is None:
+                return "(i P (b (R)) (b K))", ["Wenn nimm, verlasse die Funktion."]
+            e = self.text() if self.cur.ret == "T" else self.lst()
+            return "(i P (b (R %s)) (b K))" % e[0], ["Wenn nimm, gib %s zurück." % e[1]]
+        raise ValueError(k)
+
+    def function(self):
+        rng = self.rng
+        fid = len(self.fns)
+        params = []
+        for _ in range(rng.randint(0, 2)):
+            params.append((self.newvar(), rng.choice("vvr"), rng.choice("TTL")))
+        fn = MFn(fid, params, rng.choice(["T", "T", "L", None]))
+        fn.const = {p[0]: True for p in params}
+        self.cur = fn
+        self.scopes = [[(p[0], p[2]) for p in params]]
+        saved = self.loop
+        self.loop = 0
+        body = [self.stmt(1) for _ in range(rng.randint(1, 4))]
+        if fn.ret is not None:
+            e = self.text() if fn.ret == "T" else self.lst()
+            body.append(("(R %s)" % e[0], ["Gib %s zurück." % e[1]]))
+            self.f("M:return-%s" % ("temp" if e[2] else "var"))
+        self.loop = saved
+        self.cur = None
+        self.scopes = []
+        fn.body_sx = "(S %s)" % " ".join(b[0] for b in body)
+        tn = {"T": "Text", "L": "Text Liste"}
+        rn = {"T": "Text Referenz", "L": "Text Listen Referenz"}
+        names = ["v%d" % p[0] for p in params]
+        tys = [(rn if p[1] == "r" else tn)[p[2]] for p in params]
+        if not params:
+            sig = "Die Funktion f%d" % fid
+        elif len(params) == 1:
+            sig = "Die Funktion f%d mit dem Parameter %s vom Typ %s," % (fid, names[0], tys[0])
+        else:
+            sig = "Die Funktion f%d mit den Parametern %s vom Typ %s," % (fid, GenA.join_und(names), GenA.join_und(tys))
+        sig += " gibt %s zurück, macht:" % ({"T": "einen Text", "L": "eine Text Liste", None: "nichts"}[fn.ret])
+        fn.text = [sig] + ["\t" + l for b in body for l in b[1]] + ["Und kann so benutzt werden:", '\t"%s"' % fn.alias(), ""]
+        self.fns.append(fn)
+
+    def program(self):
+        for _ in range(self.rng.randint(1, 3)):
+            self.function()
+        self.scopes = [[]]
+        main = [self.stmt(0) for _ in range(self.rng.randint(2, 6))]
+        src = MHEAD + "\n".join(l for fn in self.fns for l in fn.text) + "\n"
+        src += 'Der Text marke1 ist "%s".\n' % ("m" * (MARK1 - 1))
+        src += "Wenn wahr, dann:\n" + "\n".join("\t" + l for s_ in main for l in s_[1]) + "\n"
+        src += 'Der Text marke2 ist "%s".\n' % ("n" * (MARK2 - 1))
+        main_sx = "(b (S %s))" % " ".join(s_[0] for s_ in main)
+        sx = lambda opt: "(prog (%s) %s)" % (" ".join(fn.sx(opt) for fn in self.fns), main_sx)
+        return src, sx
+
+
+def canon_events(ev):
+    """rename blocks by order of creation (an address handed out again after a free is a new block); drop calls that
+    do nothing (free of the null pointer)"""
+    names = {0: 0}
+    cnt = 0
+    out = []
+    for (p, o, n, r) in ev:
+        if p == 0 and n == 0:
+            continue
+        pn = names.get(p, -1)
+        if n != 0 and r != 0 and o != n:
+            cnt += 1
+            names[r] = cnt
+        out.append((pn, o, n, names.get(r, -1)))
+    # the variables of a scope are freed in Go map iteration order (scope.variables is a map): the order inside a run of
+    # consecutive frees is not an observable of the ownership discipline
+    res, run = [], []
+    for e in out:
+        if e[2] == 0:
+            run.append(e)
+        else:
+            res += sorted(run)
+            run = []
+            res.append(e)
+    return res + sorted(run)
+
+
+def region(ev):
+    """events strictly between the two marker allocations"""
+    a = b = None
+    for i, e in enumerate(ev):
+        if e[0] == 0 and e[2] == MARK1 and a is None:
+            a = i
+        if e[0] == 0 and e[2] == MARK2:
+            b = i
+    if a is None or b is None:
+        return None
+    return ev[a + 1:b]
+
+
+# =================================================================================================
+# Stream B: construct probes — one suspicious construct x type x variant per program
+# =================================================================================================
+BHEAD = HEAD + '''
+Wir nennen die Kombination aus
+	der Variable v mit Standardwert "kv",
+	der Zahl n mit Standardwert 1,
+eine Kiste, und erstellen sie so:
+	"eine Standardkiste"
+
+'''
+# a temporary (expression that allocates) and a variable initialiser per type
+BVAL = {
+    TEXT: ['"hallo welt"', '("ab" verkettet mit "cd")'],
+    TL: ['(eine Liste, die aus "a", "bc" besteht)'],
+    ZL: ['(eine Liste, die aus 1, 2, 3 besteht)'],
+    BOX: ['(eine Box mit Text "bt")', '(eine Standardbox)'],
+    BL: ['(eine Liste, die aus (eine Standardbox), (eine Box mit Text "q") besteht)'],
+    VT: ['("vtext" als Variable)'],
+    VZ: ['((eine Liste, die aus 4, 5 besteht) als Variable)'],
+    VB: ['((eine Standardbox) als Variable)'],
+    VN: ['(5 als Variable)'],
+    VL: ['(eine Liste, die aus ("x" als Variable), (2 als Variable) besteht)'],
+}
+USE = {  # a statement reading variable `x` of the type afterwards (so that dangling values are touched)
+    TEXT: "Schreibe den Text x.", TL: "Schreibe den Text (x an der Stelle 1).", ZL: "Schreibe die Zahl (x an der Stelle 1).",
+    BOX: "Schreibe den Text (t von x).", BL: "Schreibe den Text (t von (x an der Stelle 1)).", VT: "Schreibe den Text (x als Text).",
+    VZ: "Schreibe die Zahl ((x als Zahlen Liste) an der Stelle 1).", VB: "Schreibe den Text (t von (x als Box)).",
+    VN: "Schreibe die Zahl (x als Zahl).", VL: "Schreibe die Zahl (die Länge von x).",
+}
+
+
+def probes():
+    """list of (key, source, opts, needs_asan_to_see) — every program must be balanced and sanitizer-clean"""
+    P = []
+
+    def add(key, body, opts=(0,), head=BHEAD):
+        P.append((key, head + body + '\nSchreibe den Text "|ende".\n', opts))
+
+    # ---- concatenation scalar (+) scalar -> list, per element type and operand kinds
+    for (elem, LT, T, name) in [("Zahl", "Zahlen Liste", None, "Zahl"), ("Kommazahl", "Kommazahlen Liste", None, "Kommazahl"),
+                                ("Buchstabe", "Buchstaben Liste", None, "Buchstabe"), ("Box", "Box Liste", BOX, "Box"),
+                                ("Variable", "Variablen Liste", VT, "Variable"), ("Variable", "Variablen Liste", VB, "Variable(Box)")]:
+        if T is None:
+            lit = {"Zahl": ("1", "2"), "Kommazahl": ("1,5", "2,5"), "Buchstabe": ("'a'", "'b'")}[elem]
+            add("construct=concat-scalar-scalar elem=%s operands=literals" % name,
+                "Die %s l ist (%s verkettet mit %s).\nSchreibe die Zahl (die Länge von l).\n" % (LT, lit[0], lit[1]))
+            continue
+        v = BVAL[T][0]
+        for ops, a, b in (("variables", "p", "q"), ("temporaries", v, BVAL[T][-1]), ("variable-temporary", "p", v)):
+            body = "%s\n%s\nDie %s l ist (%s verkettet mit %s).\nSchreibe die Zahl (die Länge von l).\n" % (decl(T, "p", v), decl(T, "q", BVAL[T][-1]), LT, a, b)
+            body += "Für jede %s e in l, mache:\n\tSchreibe die Zahl 1.\n" % ("Box" if T == BOX else "Variable")
+            add("construct=concat-scalar-scalar elem=%s operands=%s" % (name, ops), body, opts=(0, 2))
+    # ---- self assignment
+    for T in NPTYPES:
+        v = BVAL[T][0]
+        add("construct=self-assignment type=%s form=direct" % T, "%s\nSpeichere x in x.\n%s\n" % (decl(T, "x", v), USE[T]))
+        fn = ("Die Funktion kopiere mit den Parametern a und b vom Typ %s und %s, gibt nichts zurück, macht:\n\tSpeichere a in b.\n"
+              "Und kann so benutzt werden:\n\t\"kopiere <a> nach <b>\"\n\n") % (REFNAME[T], REFNAME[T])
+        add("construct=self-assignment type=%s form=two-Referenz-parameters" % T, fn + "%s\nkopiere x nach x.\n%s\n" % (decl(T, "x", v), USE[T]), opts=(0, 2))
+        # control: the same function on two different variables must be fine
+        add("construct=assignment-through-Referenz type=%s form=distinct-variables" % T,
+            fn + "%s\n%s\nkopiere x nach y.\n%s\n" % (decl(T, "x", v), decl(T, "y", BVAL[T][-1]), USE[T]))
+    add("construct=self-assignment type=Text form=list-element", decl(TL, "x", BVAL[TL][0]) + "\nSpeichere (x an der Stelle 1) in x an der Stelle 1.\n" + USE[TL] + "\n")
+    add("construct=self-assignment type=Text form=field", decl(BOX, "x", BVAL[BOX][0]) + "\nSpeichere (t von x) in t von x.\n" + USE[BOX] + "\n")
+    add("construct=self-assignment type=VarListe form=container-into-own-Variable-element",
+        decl(VL, "x", BVAL[VL][0]) + "\nSpeichere x in x an der Stelle 1.\n" + USE[VL] + "\n")
+    add("construct=self-assignment type=Kiste form=container-into-own-Variable-field",
+        "Die Kiste k ist eine Standardkiste.\nSpeichere k in v von k.\nSchreibe die Zahl (n von k).\n")
+    add("construct=assignment type=Text form=element-to-other-element", decl(TL, "x", BVAL[TL][0]) + "\nSpeichere (x an der Stelle 1) in x an der Stelle 2.\n" + USE[TL] + "\n")
+    # ---- loops whose header leaves temporaries behind
+    for T in (TEXT, TL, ZL, BL, VL):
+        tmp = BVAL[T][0]
+        ln = "(die Länge von %s)" % tmp
+        add("construct=continue-with-header-temporaries loop=for type=%s" % T,
+            "Die Zahl n ist 0.\nFür jede Zahl i von ((%s mal 0) plus 1) bis 3, mache:\n\tErhöhe n um 1.\n\tWenn n größer als 0 ist, fahre mit der Schleife fort.\n" % ln)
+        add("construct=break-with-header-temporaries loop=for type=%s" % T,
+            "Die Zahl n ist 0.\nFür jede Zahl i von ((%s mal 0) plus 1) bis 3, mache:\n\tErhöhe n um 1.\n\tWenn n größer als 1 ist, verlasse die Schleife.\n" % ln)
+        add("construct=for-bound-temporaries type=%s iterations=2" % T, "Die Zahl n ist 0.\nFür jede Zahl i von 1 bis ((%s mal 0) plus 2), mache:\n\tErhöhe n um 1.\n" % ln)
+        add("construct=for-bound-temporaries type=%s iterations=0" % T, "Die Zahl n ist 0.\nFür jede Zahl i von 1 bis (%s mal 0), mache:\n\tErhöhe n um 1.\n" % ln)
+        add("construct=loop-condition-temporaries loop=while type=%s" % T,
+            "Die Zahl n ist 0.\nSolange n kleiner als ((%s mal 0) plus 3) ist, mache:\n\tErhöhe n um 1.\n" % ln)
+        add("construct=loop-condition-temporaries loop=do-while type=%s" % T,
+            "Die Zahl n ist 0.\nMache:\n\tErhöhe n um 1.\nSolange n kleiner als ((%s mal 0) plus 3) ist.\n" % ln)
+        add("construct=repeat-count-temporaries type=%s" % T, "Die Zahl n ist 0.\nWiederhole:\n\tErhöhe n um 1.\n((%s mal 0) plus 3) Mal.\n" % ln)
+    for LT, src in ((TL, '(eine Liste, die aus "a", "b", "c" besteht)'), (ZL, "(eine Liste, die aus 1, 2, 3 besteht)"), (TEXT, '"abc"')):
+        head, ET = FOREACH[LT]
+        e = "(%s, falls ((die Länge von %s) größer als -1 ist), ansonsten %s)" % (src, BVAL[TEXT][1], src)
+        add("construct=continue-with-header-temporaries loop=foreach type=%s" % LT,
+            "Die Zahl n ist 0.\n%s e in %s, mache:\n\tErhöhe n um 1.\n\tWenn n größer als 0 ist, fahre mit der Schleife fort.\n" % (head, e))
+        add("construct=break-with-header-temporaries loop=foreach type=%s" % LT,
+            "Die Zahl n ist 0.\n%s e in %s, mache:\n\tErhöhe n um 1.\n\tWenn n größer als 1 ist, verlasse die Schleife.\n" % (head, e))
+        add("construct=foreach-with-header-temporaries type=%s exit=fallthrough" % LT, "Die Zahl n ist 0.\n%s e in %s, mache:\n\tErhöhe n um 1.\n" % (head, e))
+    # return out of loops with header temporaries
+    add("construct=return-from-loop loop=foreach type=TextListe",
+        "Die Funktion suche gibt einen Text zurück, macht:\n\tFür jeden Text e in (eine Liste, die aus \"a\", \"b\" besteht), mache:\n\t\tWenn e gleich \"b\" ist, gib e zurück.\n\tGib \"nichts\" zurück.\n"
+        "Und kann so benutzt werden:\n\t\"suche\"\n\nSchreibe den Text suche.\n")
+    add("construct=return-from-loop loop=while-with-condition-temporaries type=Text",
+        "Die Funktion suche gibt einen Text zurück, macht:\n\tDie Zahl n ist 0.\n\tSolange n kleiner als (die Länge von (\"ab\" verkettet mit \"cd\")) ist, mache:\n\t\tErhöhe n um 1.\n\t\tWenn n gleich 2 ist, gib \"zwei\" zurück.\n\tGib \"nichts\" zurück.\n"
+        "Und kann so benutzt werden:\n\t\"suche\"\n\nSchreibe den Text suche.\n")
+    # ---- texts whose first byte is NUL (empty for the runtime, but allocated)
+    nul = "((0 als Buchstabe) als Text)"
+    add("construct=nul-text-concat form=temporary-left", 'Der Text r ist (%s verkettet mit "abc").\nSchreibe den Text r.\n' % nul)
+    add("construct=nul-text-concat form=char-left", "Der Text r ist ('a' verkettet mit %s).\nSchreibe den Text r.\n" % nul)
+    add("construct=nul-text-concat form=char-right", "Der Text r ist (%s verkettet mit 'a').\nSchreibe den Text r.\n" % nul)
+    add("construct=nul-text-concat form=variable-left-empty-right", 'Der Text e ist %s.\nDer Text r ist (e verkettet mit "").\nSchreibe den Text r.\n' % nul)
+    add("construct=nul-text form=declare-and-copy", "Der Text e ist %s.\nDer Text r ist e.\nSchreibe den Text r.\n" % nul)
+    # ---- defects named by the property text (anchored in C12 / C08)
+    add("construct=text-compare-after-shrink", 'Der Text t ist "äbc".\nSpeichere \'a\' in t an der Stelle 1.\nDer Text u ist "abc".\nWenn t gleich u ist, Schreibe den Text "gleich".\n')
+    add("construct=o2-value-and-Referenz-of-one-variable type=Text",
+        "Die Funktion f mit den Parametern p und r vom Typ Text und Text Referenz, gibt einen Text zurück, macht:\n\tSpeichere \"ein neuer Wert\" in r.\n\tGib p zurück.\n"
+        "Und kann so benutzt werden:\n\t\"f <p> <r>\"\n\nDer Text t ist \"alter wert\".\nDer Text u ist (f t t).\nSchreibe den Text u.\nSchreibe den Text t.\n", opts=(0, 2))
+    return P
 
 
 # =================================================================================================
@@ -573,15 +1167,276 @@ def classify(rc, err):
     return "exit%d" % rc
 
 
+ARGVS = [["0"] * NARGS, ["1"] * NARGS, ["1", "2", "0", "1", "2", "3"], ["2", "1", "1", "0", "3", "1"], ["3", "0", "2", "2", "1", "0"]]
+OUTCOME_OK = ("ok",)
+
+
+class Job:
+    """one source at one optimisation level / link flavour, run with several command lines"""
+    __slots__ = ("stream", "key", "src", "opt", "asan", "argvs", "end", "sx", "risky", "name", "base", "compiled", "runs", "feat")
+
+    def __init__(self, stream, key, src, opt, argvs, asan=False, end=None, sx=None, risky=None):
+        self.stream, self.key, self.src, self.opt, self.argvs, self.asan, self.end, self.sx, self.risky = stream, key, src, opt, argvs, asan, end, sx, risky
+        self.runs = []
+        self.compiled = None
+
+
+def run_jobs(b, sc, jobs, tag):
+    """compile and run all jobs in parallel; fills job.compiled and job.runs = [(argv, class, rc, out, err, events)]"""
+    for i, j in enumerate(jobs):
+        j.base = os.path.join(sc, "%s%d_O%d%s" % (tag, i, j.opt, "a" if j.asan else ""))
+
+    def one(j):
+        open(j.base + ".ddp", "w").write(j.src)
+        j.compiled = b.compile(j.base + ".ddp", j.base, opt=j.opt, asan=j.asan, timeout=300)
+        if j.compiled["stage"] != "ok":
+            return
+        for k, argv in enumerate(j.argvs):
+            led = "%s.led%d" % (j.base, k)
+            rc, out, err = b.run(j.base, args=argv, ledger=led, timeout=60 if j.asan else 30)
+            ev = parse_ledger(led)
+            try:
+                os.unlink(led)
+            except OSError:
+                pass
+            j.runs.append((argv, classify(rc, err), rc, out, err, ev))
+        for ext in ("", ".o"):
+            try:
+                os.unlink(j.base + ext)
+            except OSError:
+                pass
+    vlib.pmap(one, jobs)
+
+
+def verdict_text(v):
+    if v[0] == "B":
+        return "balanced"
+    if v[0] == "X":
+        return "event %d %s: ddp_reallocate(%#x, %d, %d) -> %#x" % (v[1], v[2], v[3], v[4], v[5], v[6])
+    if v[0] == "K":
+        return "blocks never released: " + ", ".join("%#x (%d bytes)" % x for x in v[1][:6])
+    return "?"
+
+
+def offending_lines(ev, v, ctx=3):
+    if v[0] == "X":
+        lo = max(0, v[1] - ctx)
+        return ["%d: %#x %d %d -> %#x" % ((i,) + ev[i]) for i in range(lo, min(len(ev), v[1] + 2))]
+    if v[0] == "K":
+        leaked = {p for p, _ in v[1]}
+        return ["%d: %#x %d %d -> %#x" % ((i,) + e) for i, e in enumerate(ev) if e[3] in leaked or e[0] in leaked][:12]
+    return []
+
+
+def shrink_source(b, sc, src, opt, argv, asan, budget=40):
+    """greedy removal of statement blocks (a line with its deeper-indented followers) keeping 'violates the property'"""
+    state = {"n": 0}
+
+    def bad(text):
+        state["n"] += 1
+        base = os.path.join(sc, "shrink%d" % state["n"])
+        open(base + ".ddp", "w").write(text)
+        r = b.compile(base + ".ddp", base, opt=opt, asan=asan, timeout=300)
+        if r["stage"] != "ok":
+            return False
+        rc, out, err = b.run(base, args=argv, ledger=base + ".led", timeout=30)
+        cl = classify(rc, err)
+        if cl in ("laufzeitfehler", "timeout"):
+            return False
+        return cl != "ok" or not py_balanced(parse_ledger(base + ".led"))
+    lines = src.split("\n")
+    nhead = HEAD.count("\n")
+    progress = True
+    while progress and state["n"] < budget:
+        progress = False
+        units = []
+        for i in range(nhead, len(lines)):
+            if not lines[i].strip():
+                continue
+            ind = len(lines[i]) - len(lines[i].lstrip("\t"))
+            k = i + 1
+            while k < len(lines) and lines[k].strip() and (len(lines[k]) - len(lines[k].lstrip("\t"))) > ind:
+                k += 1
+            units.append((i, k))
+        for (i, k) in sorted(units, key=lambda u: u[0] - u[1]):
+            if state["n"] >= budget:
+                break
+            cand = lines[:i] + lines[k:]
+            if bad("\n".join(cand)):
+                lines = cand
+                progress = True
+                break
+    return "\n".join(lines)
+
+
 def main():
     ck = Check(PID, "proof")
     b = Build()
-    ck.cov["trusted_base"] = vlib.TRUSTED_COMMON + []
+    ck.cov["trusted_base"] = vlib.TRUSTED_COMMON + [
+        "ledger = the calls of ddp_reallocate recorded by the link-time wrapper harness/c/shim.c (written after the real call returns: the call that makes glibc abort is not in the file); heap blocks obtained by other means (none in runtime/stdlib sources used here) are invisible",
+        "coq/Lower/Own.v abstracts a non-primitive value to a list of blocks, inlines calls (no recursion), answers conditions by an oracle; it is tied to the compiler by the exact event-sequence comparison on the Text/Text-Liste subset (stream M) only; other types are judged by the proved ledger checker alone",
+        "AddressSanitizer/LeakSanitizer instrument the C runtime/stdlib objects and intercept libc calls; loads and stores of generated code itself are not instrumented",
+        "glibc malloc as the allocator behind ddp_reallocate (pointer values are renamed by order of creation before any comparison)",
+    ]
     ck.coq()
     ok, lg = b.ensure_native()
     if not ok:
         ck.violation("build", "kddp/runtime do not build from the current tree", dict(log=lg[-3000:]), no_input=True)
         ck.finish()
+    sc = vlib.scratch()
+    quick = ck.quick
+    rng = ck.rng
+    jobs = []
+    # ---- 1. corpus of minimised past failures
+    cdir = os.path.join(vlib.VERIF, "corpus", PID)
+    corpus_n = 0
+    if os.path.isdir(cdir):
+        for fn in sorted(os.listdir(cdir)):
+            if fn.endswith(".json"):
+                c = json.load(open(os.path.join(cdir, fn)))
+                jobs.append(Job("corpus", c["key"], c["source"], c.get("opt", 0), [c.get("argv", ["1"] * NARGS)], asan=c.get("asan", False), end=c.get("end")))
+                corpus_n += 1
+    # ---- 2. construct probes
+    P = probes()
+    asan_only = ("container-into-own-Variable", "text-compare-after-shrink", "o2-value-and-Referenz", "nul-text")
+    for (key, src, opts) in P:
+        for o in (opts if quick else (0, 1, 2)):
+            jobs.append(Job("B", "%s opt=%d" % (key, o), src, o, [["1"] * NARGS], end="|ende"))
+        if not quick or any(a in key for a in asan_only) or rng.random() < 0.08:
+            for o in (opts if quick else (0, 2)):
+                jobs.append(Job("B", "%s opt=%d" % (key, o), src, o, [["1"] * NARGS], asan=True, end="|ende"))
+    # ---- 3. model-shared Text subset
+    featM = {}
+    nM = 36 if quick else 400
+    for i in range(nM):
+        g = GenM(rng, featM)
+        src, sx = g.program()
+        tapes = ["".join(rng.choice("01") for _ in range(rng.choice((20, 60)))) for _ in range(2 if quick else 4)] + ["1" * 40, "0"]
+        for o in ((0, 2) if quick else (0, 1, 2)):
+            jobs.append(Job("M", "stream=M", src, o, [[t] for t in tapes], sx=sx(o)))
+        if not quick and i % 3 == 0 or quick and i % 9 == 0:
+            jobs.append(Job("M", "stream=M", src, rng.choice((0, 2)), [[t] for t in tapes[:2]], sx=None, asan=True))
+    for risky in ("loop-condition-temporaries", "for-bound-temporaries", "for-header-temporaries", "foreach-header-temporaries"):
+        for i in range(3 if quick else 20):
+            g = GenM(rng, featM, risky=risky)
+            src, sx = g.program()
+            tapes = ["".join(rng.choice("01") for _ in range(40)) for _ in range(2)] + ["1" * 40]
+            o = rng.choice((0, 2))
+            jobs.append(Job("M", "stream=M", src, o, [[t] for t in tapes], sx=sx(o), risky=risky if g.planted else None))
+    # ---- 4. random programs over all types, roles, exits
+    featA = {}
+    nA = 60 if quick else 900
+    for i in range(nA):
+        g = GenA(rng, featA)
+        src = g.program()
+        argvs = rng.sample(ARGVS, 3) if quick else ARGVS
+        opts = (i % 3,) if (quick or i >= 150) else (0, 1, 2)
+        for o in opts:
+            jobs.append(Job("A", "stream=A", src, o, argvs))
+        if (quick and i % 10 == 0) or (not quick and i % 5 == 0):
+            jobs.append(Job("A", "stream=A", src, rng.choice((0, 2)), argvs[:2], asan=True))
+    log("[c05] %d compile jobs (%d corpus, %d probes, %d M programs, %d A programs)" % (len(jobs), corpus_n, len(P), nM, nA))
+    run_jobs(b, sc, jobs, "j")
+    # ---- judge every ledger with the extracted checker (and cross-check the checker against the Python restatement)
+    allruns = [(j, r) for j in jobs if j.compiled and j.compiled["stage"] == "ok" for r in j.runs]
+    verdicts = judge_ledgers([r[5] for (_, r) in allruns])
+    disagree = [(j, r) for (j, r), v in zip(allruns, verdicts) if (v[0] == "B") != py_balanced(r[5])]
+    if disagree:
+        j, r = disagree[0]
+        ck.broken_obligation("the extracted checker and the Python restatement of `balanced` disagree on a real ledger (%s, argv %s)" % (j.key, r[0]), "")
+    # model answers for stream M
+    mq = [(j, k) for j in jobs if j.stream == "M" and j.sx and j.compiled and j.compiled["stage"] == "ok" for k in range(len(j.runs))]
+    mans = {}
+    if mq:
+        mp = subprocess.run([vlib.model_bin("c05")], input="\n".join("M 2000 %s %s" % (j.runs[k][0][0], j.sx) for (j, k) in mq) + "\n",
+                            capture_output=True, text=True, timeout=900)
+        for (j, k), a in zip(mq, mp.stdout.splitlines()):
+            mans[(id(j), k)] = a
+    stats = dict(runs=0, ok_balanced=0, laufzeitfehler=0, timeout=0, compile_fail=0, sanitizer_runs=0, model_compared=0, model_sequences_equal=0,
+                 model_predicted_unbalanced=0, events=0)
+    shrunk = 0
+    vi = iter(verdicts)
+    model_bad = None
+    for j in jobs:
+        if not j.compiled or j.compiled["stage"] != "ok":
+            stats["compile_fail"] += 1
+            what = (j.compiled or {}).get("out", "")[-600:]
+            if j.stream in ("A", "M"):
+                # a generated program that the frontend rejects is a harness error unless kddp crashed
+                if "Bug im DDP-Kompilierer" in what or "panic" in what:
+                    ck.violation("%s compile-crash opt=%d" % (j.key, j.opt), "kddp crashed on a generated program: %s" % what[-300:], dict(source=j.src, opt=j.opt, output=what))
+                else:
+                    ck.broken_obligation("generator produced a program kddp rejects (%s): %s" % (j.key, what[-300:]), j.src[-1500:])
+            else:
+                ck.violation(j.key + " compile", "probe does not compile: %s" % what[-300:], dict(source=j.src, opt=j.opt, output=what))
+            continue
+        for k, r in enumerate(j.runs):
+            argv, cl, rc, out, err, ev = r
+            v = next(vi)
+            stats["runs"] += 1
+            stats["events"] += len(ev)
+            ck.count()
+            if j.asan:
+                stats["sanitizer_runs"] += 1
+            if len(ev) >= 12:
+                ck.nontrivial((hash(j.src), tuple(argv), j.opt, j.asan))
+            bad = None
+            if cl == "timeout":
+                stats["timeout"] += 1
+            elif cl == "laufzeitfehler" and j.stream in ("A", "M"):
+                stats["laufzeitfehler"] += 1
+            elif cl != "ok":
+                bad = "%s (exit %d): %s" % (cl, rc, err[-400:].decode("utf-8", "replace"))
+            elif j.end is not None and not out.decode("utf-8", "replace").endswith(j.end):
+                bad = "terminated without reaching the end of the program (stdout %r)" % out[-60:]
+            elif v[0] != "B":
+                bad = "terminated normally with an unbalanced ledger: " + verdict_text(v)
+            else:
+                stats["ok_balanced"] += 1
+            # correspondence with the ownership model
+            a = mans.get((id(j), k))
+            if a is not None and cl != "timeout":
+                stats["model_compared"] += 1
+                mverdict = a.split(" # ")[0]
+                mbal = mverdict.startswith("B")
+                if not mbal:
+                    stats["model_predicted_unbalanced"] += 1
+                if a in ("N", "F") or a.startswith("?"):
+                    model_bad = model_bad or ("model does not run the skeleton (%s)" % a, j, argv)
+                elif mbal != (bad is None):
+                    model_bad = model_bad or ("model predicts %s, real run: %s" % (mverdict[:60], bad or "balanced"), j, argv)
+                elif mbal:
+                    mev = [tuple(int(x) for x in e.split()) for e in a.split(" # ")[1].split(" ; ") if e.strip()]
+                    reg = region(ev)
+                    if reg is None or canon_events(reg) != canon_events(mev):
+                        model_bad = model_bad or ("event sequences differ", j, argv)
+                    else:
+                        stats["model_sequences_equal"] += 1
+            if bad is None:
+                continue
+            key = j.key
+            src = j.src
+            if j.stream == "M" and j.risky:
+                key = "construct=%s loop=any type=Text stream=M opt=%d" % (j.risky.replace("for-header", "continue-with-header").replace("foreach-header", "continue-with-header"), j.opt)
+            elif j.stream in ("A", "M"):
+                if shrunk < 3:
+                    shrunk += 1
+                    src = shrink_source(b, sc, j.src, j.opt, argv, j.asan, budget=40 if quick else 120)
+                kinds = sorted(set(re.findall(r"(Solange|Für jede[nrs]?|Wiederhole|verlasse die Schleife|fahre mit der Schleife fort|gib |verkettet|falls|Speichere|an der Stelle| von | als Variable| und | oder )", src[len(HEAD):])))
+                key = "stream=%s outcome=%s first=%s constructs=%s opt=%d" % (j.stream, cl, v[2] if v[0] == "X" else ("leak" if v[0] == "K" else "-"), ",".join(x.strip() for x in kinds), j.opt)
+            ck.violation(key, bad, dict(source=src, opt=j.opt, argv=argv, asan=j.asan, ledger_verdict=verdict_text(v), offending_ledger_lines=offending_lines(ev, v),
+                                        how="kddp kompiliere prog.ddp -o prog.o -O %d; link with harness/c/shim.c (--wrap=ddp_reallocate)%s; DDP_LEDGER=ledger ./prog %s" % (j.opt, " and the ASan runtime" if j.asan else "", " ".join(argv)),
+                                        stderr=err[-1200:].decode("utf-8", "replace")))
+    if model_bad and not ck.violations:
+        what, j, argv = model_bad
+        ck.broken_obligation("correspondence of coq/Lower/Own.v with the compiler fails (%s) at -O %d, tape %s" % (what, j.opt, argv), j.src[-3000:] + "\n" + (j.sx or ""))
+    ck.cov.update(dict(
+        programs=dict(corpus=corpus_n, probes=len(P), model_shared=nM, random=nA), compile_jobs=len(jobs), **stats,
+        features_random_stream=dict(sorted(featA.items())), features_model_stream=dict(sorted(featM.items())),
+        opt_levels=[0, 1, 2], exhaustive=False,
+        rule="a run is counted non-trivial if its ledger has at least 12 ddp_reallocate calls; distinct = distinct (program, command line, -O level, link flavour)"))
+    ck.sample(dict(stream="B", key=P[3][0], expected="balanced ledger, output ends with |ende"))
+    ck.sample(dict(stream="M", note="real event sequence between the two marker allocations == Own.run (Own.compile skeleton) with the tape as oracle, pointers renamed by creation order"))
     ck.finish()
 
 
